@@ -3,6 +3,7 @@ package store
 import (
 	"context"
 	"encoding/json"
+	"errors"
 	"fmt"
 	"sort"
 	"strings"
@@ -21,14 +22,14 @@ import (
 // C18: several tasks use one backend concurrently.
 
 type cRec struct {
-	Task       int
-	Kind       string
-	Key, Arg   string
-	Call, Ret  int64
-	Class      string
-	Out        string
-	Outs       []string
-	Err        string
+	Task      int
+	Kind      string
+	Key, Arg  string
+	Call, Ret int64
+	Class     string
+	Out       string
+	Outs      []string
+	Err       string
 }
 
 type kvState struct {
@@ -108,6 +109,7 @@ func genConcPlan(prop string, seed uint64, tier string) *Plan {
 		p.Tasks = 2 + r.Intn(2)
 	}
 	kinds := []string{"put", "put", "get", "get", "del", "pappend", "pappend", "premove", "plist", "pcontains", "acquire", "release"}
+	abandon := r.Chance(0.35)
 	switch {
 	case prop == "C19" || r.Chance(0.25):
 		// races for one lease
@@ -132,6 +134,11 @@ func genConcPlan(prop string, seed uint64, tier string) *Plan {
 				op.Key = "lease"
 			}
 			p.Ops = append(p.Ops, op)
+			if abandon && r.Chance(0.25) {
+				// a caller that gives up on a mutation (cancelled request): on its own key, so that its unknown
+				// outcome does not blur the histories of the other keys - which must stay exactly right
+				p.Ops = append(p.Ops, Op{Task: t, Kind: pick(r, "aput", "apappend", "apremove"), Key: "zz", Val: fmt.Sprintf("z%d.%d", t, i), Abandon: 1 + r.Intn(6)})
+			}
 		}
 	}
 	return p
@@ -145,11 +152,11 @@ func runConc(t *testing.T, prop string, seed uint64, tier string, replay *hcommo
 	var hist []*cRec
 	var mu sync.Mutex
 	type lev struct {
-		task     int
-		kind     string
-		ok       bool
+		task      int
+		kind      string
+		ok        bool
 		call, ret int64
-		tok      uint64
+		tok       uint64
 	}
 	var leases []lev
 	sr := simrt.NewRand(simrt.Mix(seed, 0x7363686564))
@@ -206,6 +213,34 @@ func runConc(t *testing.T, prop string, seed uint64, tier string, replay *hcommo
 							var ok bool
 							ok, err = b.KV.PrefixContains(ctx, k, []byte(op.Val))
 							r.Out = fmt.Sprint(ok)
+						case "aput", "apappend", "apremove":
+							actx, cancel := context.WithCancel(ctx)
+							if op.Abandon <= 1 {
+								cancel()
+							} else {
+								n := op.Abandon
+								simrt.GoGroup("h:canceller", "", func() {
+									for i := 0; i < n; i++ {
+										simrt.YieldAlways("h:before-cancel")
+									}
+									cancel()
+								})
+							}
+							var aerr error
+							switch op.Kind {
+							case "aput":
+								aerr = b.KV.Put(actx, k, []byte(op.Val))
+							case "apappend":
+								aerr = b.KV.PrefixAppend(actx, k, []byte(op.Val))
+							default:
+								aerr = b.KV.PrefixRemove(actx, k, []byte(op.Val))
+							}
+							cancel()
+							simrt.Probe("abandoned-mutation")
+							if aerr != nil && !errors.Is(aerr, context.Canceled) && !errors.Is(aerr, context.DeadlineExceeded) && errName(aerr) != spec.ErrKVPrefixConflict.Error() && errName(aerr) != spec.ErrKVSimpleConflict.Error() {
+								res.Violate(prop, p.Backend+"/unexpected-error", "[%s] task %d abandoned %s(%q,%q) failed with %v", p.Backend, task, op.Kind, op.Key, op.Val, aerr)
+							}
+							continue
 						case "acquire":
 							var nt uint64
 							c := simrt.Stamp()
@@ -234,6 +269,12 @@ func runConc(t *testing.T, prop string, seed uint64, tier string, replay *hcommo
 							switch errName(err) {
 							case spec.ErrKVPrefixConflict.Error(), spec.ErrKVSimpleConflict.Error(), spec.ErrKVLeaseConflict.Error(), spec.ErrKVLeaseExpired.Error():
 								r.Class = "conflict"
+								// a prefix conflict only answers an append, lease errors only lease operations
+								en := errName(err)
+								leaseErr := en == spec.ErrKVLeaseConflict.Error() || en == spec.ErrKVLeaseExpired.Error()
+								if (en == spec.ErrKVPrefixConflict.Error() && op.Kind != "pappend") || (leaseErr && op.Kind != "acquire" && op.Kind != "release") {
+									res.Violate(prop, p.Backend+"/foreign-answer", "[%s] task %d %s(%q,%q) was answered %v, which is not an answer to that operation", p.Backend, task, op.Kind, op.Key, op.Val, err)
+								}
 							default:
 								r.Class = "error"
 								res.Violate(prop, p.Backend+"/unexpected-error", "[%s] task %d %s(%q,%q) failed: %v", p.Backend, task, op.Kind, op.Key, op.Val, err)
@@ -287,7 +328,10 @@ func runConc(t *testing.T, prop string, seed uint64, tier string, replay *hcommo
 	// lease exclusivity on certain facts: a grant holds from its return until the
 	// invocation of the release that gave the same token back
 	sort.SliceStable(leases, func(i, j int) bool { return leases[i].call < leases[j].call })
-	type held struct{ from, until int64; task int }
+	type held struct {
+		from, until int64
+		task        int
+	}
 	var holds []held
 	for _, l := range leases {
 		if l.kind == "acquire" && l.ok {
